@@ -410,6 +410,14 @@ func c18Gen(t *rapid.T) *c18Doc {
 				x.accept = []string{fmt.Sprintf("h%d.example.com", hostN)}
 			}
 			s.expose = append(s.expose, x)
+			// the same container port published a second time under another external port
+			if len(x.accept) == 0 && rapid.IntRange(0, 5).Draw(t, "twinExpose") == 0 {
+				tw := x
+				tw.as = uint16(rapid.SampledFrom([]int{8082, 9001, 80}).Draw(t, "twinAs"))
+				tw.to = append([]c18To(nil), x.to...)
+				s.expose = append(s.expose, tw)
+				vsLabel("port-exposed-twice")
+			}
 		}
 		d.services = append(d.services, s)
 	}
@@ -528,6 +536,29 @@ func TestVerif_C18(t *testing.T) {
 		}
 		if _, _, _, fp3, err := c18Outputs([]byte(permuted)); err != nil || fp3 != fp {
 			t.Fatalf("C18 VIOLATION key=c18-key-order-dependent: reordering YAML mapping keys changed the outputs (err=%v)\n--- canonical:\n%s\n--- permuted:\n%s\n--- out1: %s\n--- out2: %s", err, canonical, permuted, fp, fp3)
+		}
+		// the same holds for one parsed document asked several times (a client derives the
+		// groups, the manifest and the version from one object, in any order and more than once)
+		if obj, err := sdl.Read([]byte(canonical)); err == nil {
+			order := rapid.SliceOfN(rapid.IntRange(0, 2), 2, 5).Draw(t, "derivations")
+			for _, k := range order {
+				switch k {
+				case 0:
+					_, _ = obj.DeploymentGroups()
+				case 1:
+					_, _ = obj.Manifest()
+				default:
+					_, _ = sdl.Version(obj)
+				}
+			}
+			g2, e1 := obj.DeploymentGroups()
+			m2, e2 := obj.Manifest()
+			v2, e3 := sdl.Version(obj)
+			gb, _ := json.Marshal(g2)
+			mb, _ := json.Marshal(m2)
+			if fp5 := fmt.Sprintf("%s|%s|%x", gb, mb, v2); e1 != nil || e2 != nil || e3 != nil || fp5 != fp {
+				t.Fatalf("C18 VIOLATION key=c18-history-dependent: one parsed document, asked again after derivations %v, gave different outputs (errs=%v,%v,%v)\n%s\n--- first: %s\n--- later: %s", order, e1, e2, e3, canonical, fp, fp5)
+			}
 		}
 		if len(ver) != 32 {
 			t.Fatalf("C18 VIOLATION key=c18-version-length: %d", len(ver))
